@@ -1030,6 +1030,8 @@ static void gen_expr(Node *node) {
     pop("%rdi"); // addr
 
     int sz = node->cas_addr->ty->base->size;
+    if (sz != 1 && sz != 2 && sz != 4 && sz != 8)
+      error_tok(node->tok, "atomic operation on an object of unsupported size");
     println("  lock cmpxchg %s, (%%rdi)", reg_dx(sz));
     println("  sete %%cl");
     println("  je 1f");
@@ -1045,6 +1047,8 @@ static void gen_expr(Node *node) {
     pop("%rdi");
 
     int sz = node->lhs->ty->base->size;
+    if (sz != 1 && sz != 2 && sz != 4 && sz != 8)
+      error_tok(node->tok, "atomic operation on an object of unsupported size");
     println("  xchg %s, (%%rdi)", reg_ax(sz));
 
     // The previous value arrives in the low bytes only; extend it the
